@@ -49,6 +49,10 @@ def shares(t, u):
         for b in u.cores:
             if a is b or np.shares_memory(a, b):
                 return True
+    # the metadata lists are mutable state too: two live objects must not hold the same list object
+    for name in ('row_dims', 'col_dims', 'ranks', 'cores'):
+        if getattr(t, name) is getattr(u, name):
+            return True
     return False
 
 
@@ -227,6 +231,7 @@ OPS = {
     'conj': _un(7, lambda a, h: a.conj(), 'vec', 'vec'),
     'rank_transpose': _un(8, lambda a, h: a.rank_transpose(), 'vec', 'misc'),
     'diag': _un(9, lambda a, h: a.diag(list(range(h.order))), 'vec', 'op'),
+    'diag_partial': _un(9, lambda a, h: a.diag(sorted(h.rng.sample(range(h.order), h.rng.randint(0, h.order - 1)))), 'vec', 'misc'),
     'squeeze': _un(10, lambda a, h: a.squeeze(), 'vec', 'misc'),
     'tt2qtt': _un(11, lambda a, h: a.tt2qtt([[d] for d in h.dims], [[1]] * h.order), 'vec', 'vec'),
     'qtt2tt': _un(12, lambda a, h: a.qtt2tt([1] * h.order), 'vec', 'vec'),
@@ -325,10 +330,15 @@ def run_history(seed, length, cplx=None, only=None):
                 if i != j and h.pool[i].t is not h.pool[j].t and shares(h.pool[i].t, h.pool[j].t):
                     # try to turn the aliasing into an observable change of an untouched object
                     for (x, y) in ((i, j), (j, i)):
-                        for f in ('ortho_left', 'ortho_right', 'ortho'):
+                        for f in ('ortho_left', 'ortho_right', 'ortho', 'transpose_ow', 'rank_transpose_ow'):
                             s0 = snap(h.pool[y].t)
                             try:
-                                getattr(h.pool[x].t, f)()
+                                if f == 'transpose_ow':
+                                    h.pool[x].t.transpose(overwrite=True)
+                                elif f == 'rank_transpose_ow':
+                                    h.pool[x].t.rank_transpose(overwrite=True)
+                                else:
+                                    getattr(h.pool[x].t, f)()
                             except Exception:
                                 continue
                             if not same(h.pool[y].t, s0):
